@@ -12,9 +12,13 @@ import common
 HTML_ALPHA = {"<", ">", "/", "=", "DQ", "'", "BS", "!", "-", "?", "[", "]", "a", " "}
 CSS_ALPHA = {"{", "}", ":", ";", "(", ")", "DQ", "'", "BS", "/", "*", "a", " "}
 HTML_DOCS = ['<a><b c="d>e"></b></a>', '<p k=l m><br><img a=b></p>', '<a x=\'>\' {y}><!-- <a> --></a>', '<style>a>b{}</style><p t={a>b}/>',
-             '<b *ng="v" #ref><![CDATA[<b>]]></b>', '<script>if(a<b)"</p>"</script><?pi <p> ?>']
+             '<b *ng="v" #ref><![CDATA[<b>]]></b>', '<script>if(a<b)"</p>"</script><?pi <p> ?>',
+             '<style>a{}</style><style>b{}</style>', '<script src="a"></script><p>t</p><script>x</script>',
+             '<ul><li>one</li><li><a href="#">two</a></li></ul>\n<p><img src="a.png"> text</p>',
+             '<div><p><b>x</b></p></div><br><section><input a=b><em>y</em></section>']
 CSS_DOCS = ['a{color:red;}', 'a:hover{--v : "x;y" ;}', '@media (min-width: 10px){b[x="{"]{$v:url(a:b);}}', 'a::before{margin:1px  solid;/* {;:} */}',
-            '.c > d{color:calc(1px + (2px));}\n  a{b:c}', 'a{b:c;d:e}']
+            '.c > d{color:calc(1px + (2px));}\n  a{b:c}', 'a{b:c;d:e}', 'a { /** x } **/ b: c; }', 'a { b { c { d: e; } f: g; } h: i; }',
+            'a{m:0;b{c{x:1}y:2}z:3}']
 
 
 def _pair(t):
@@ -117,8 +121,11 @@ def _mutations(doc, salt, alpha):
         outs.add(doc[:i] + doc[i + 1:])
         outs.add(doc[:i] + chars[(i + salt) % len(chars)] + doc[i + 1:])
         outs.add(doc[:i] + chars[(i * 5 + salt + 1) % len(chars)] + doc[i:])
-        outs.add(doc[:i])
     return outs
+
+
+def _prefixes(doc):
+    return {doc[:i] for i in range(len(doc) + 1)}
 
 
 def run(out):
@@ -144,7 +151,7 @@ def run(out):
         for d in docs:
             m = sorted(_mutations(d, zlib.crc32(d.encode()) + out.seed, lang))
             ms.update(m[::4] if quick else m)
-            ms.add(d)
+            ms.update(_prefixes(d))
         work.append(('document-mutations-' + lang, lang, sorted(ms)))
     tid = 0
     for name, lang, strings in work:
